@@ -40,17 +40,30 @@ def _stored_names(nodes):
 MUTATORS = {"append", "extend", "insert", "update", "add", "discard", "remove", "pop", "clear", "sort", "setdefault", "popitem", "reverse"}
 
 
+def _root_name(e):
+    """x, x[i], x.a, x[i].a[j] ... -> 'x'"""
+    while isinstance(e, (ast.Subscript, ast.Attribute)):
+        e = e.value
+    return e.id if isinstance(e, ast.Name) else None
+
+
 def _mutated_names(nodes):
-    """local names whose *object* may be mutated in place inside the loop body (x[k] = v, x.append(v), del x[k], x[a:b] = ...)"""
+    """local names whose object (or anything reachable from it by subscripts/attributes) may be mutated in place inside the loop body:
+    x[k] = v, x[k][j] = v, x.append(v), x[k].append(v), del x[k], x[a:b] = ..., x += ..."""
     out = set()
     for b in nodes:
         for n in ast.walk(b):
-            if isinstance(n, ast.Subscript) and isinstance(n.ctx, (ast.Store, ast.Del)) and isinstance(n.value, ast.Name):
-                out.add(n.value.id)
-            elif isinstance(n, ast.Call) and isinstance(n.func, ast.Attribute) and n.func.attr in MUTATORS and isinstance(n.func.value, ast.Name):
-                out.add(n.func.value.id)
-            elif isinstance(n, ast.AugAssign) and isinstance(n.target, ast.Name):
-                out.add(n.target.id)
+            r = None
+            if isinstance(n, ast.Subscript) and isinstance(n.ctx, (ast.Store, ast.Del)):
+                r = _root_name(n.value)
+            elif isinstance(n, ast.Attribute) and isinstance(n.ctx, (ast.Store, ast.Del)):
+                r = _root_name(n.value)
+            elif isinstance(n, ast.Call) and isinstance(n.func, ast.Attribute) and n.func.attr in MUTATORS:
+                r = _root_name(n.func.value)
+            elif isinstance(n, ast.AugAssign):
+                r = _root_name(n.target)
+            if r:
+                out.add(r)
     out.discard("self")
     return out
 
